@@ -209,36 +209,54 @@ def _decl_use(item):
     return item["s"] != "" and item["r"] in DECL_ROLES
 
 
-def _has_inplace(case, side=None):
-    return any(op["name"] == "setshaperef" and (side is None or op["side"] == side)
-               for op in case["history"])
+def _ops(case, name, side=None):
+    return [op for op in case["history"]
+            if op["name"] == name and (side is None or op.get("side") == side)]
+
+
+def _only_uses_changed(diff):
+    return not (diff["Dgone"] or diff["Dnew"] or diff["Ngone"] or diff["Nnew"])
+
+
+def _same_sites(gone, new):
+    def site(u):
+        return json.dumps([u["p"], u["s"], u["r"], u["i"]])
+    return sorted(site(u) for u in gone) == sorted(site(u) for u in new)
 
 
 def _m_decl_not_repointed(case, clause, detail, finding):
     '''The symbols mentioned INSIDE declarations of a copied table (array
     bounds, kind parameter, initial value) still are the original's symbol
-    objects: (OwnSymbols) every offending use sits in a declaration of the copy,
-    has role shape/kind/init and no symbol object is in two tables;
-    (OtherRenderUnchanged) a rename_symbol on the original changes, in the
-    copy, exactly the names reached through such uses from the old to the new
-    name.'''
+    objects.  (OwnSymbols) every offending use sits in a declaration, has role
+    shape/kind/init and no symbol object is in two tables; uses of the ORIGINAL
+    may reach into the copy only through a bound edited in place
+    (setshaperef, see copy-shares-datatype-objects) and then only with role
+    shape.  (OtherRenderUnchanged) a rename_symbol changes, in the other tree,
+    exactly the names reached through such declaration uses, from the old to
+    the new name - a rename on the copy only after such an in-place edit.'''
     wit = detail["witness"]
+    inplace = bool(_ops(case, "setshaperef"))
     if clause == "OwnSymbols":
         if wit["sharedsyms"] != 0 or not wit["uses"]:
             return False
-        if _has_inplace(case):
-            return False
-        return all(u["side"] == "C" and _decl_use(u) for u in wit["uses"])
+        for use in wit["uses"]:
+            if not _decl_use(use):
+                return False
+            if use["side"] == "O" and not (inplace and use["r"] == "shape"):
+                return False
+        return True
     if clause == "OtherRenderUnchanged":
         op = case["history"][-1]
-        if op["name"] != "rename" or op["side"] != "O" or wit["side"] != "C":
+        if op["name"] != "rename" or case["refused"]:
             return False
-        if case["refused"] or _has_inplace(case):
+        if op["side"] != "O" and not inplace:
             return False
         diff = wit["diff"]
-        if diff["Dgone"] or diff["Dnew"] or diff["Ngone"] or diff["Nnew"]:
+        if not _only_uses_changed(diff) or not diff["Ugone"]:
             return False
-        if not diff["Ugone"] or len(diff["Ugone"]) != len(diff["Unew"]):
+        if not _same_sites(diff["Ugone"], diff["Unew"]):
+            return False
+        if op["side"] != "O" and not all(u["r"] == "shape" for u in diff["Ugone"]):
             return False
         return (all(_decl_use(u) and u["nm"] == op["sym"] for u in diff["Ugone"])
                 and all(_decl_use(u) and u["nm"] == op["new"] for u in diff["Unew"]))
@@ -248,49 +266,34 @@ def _m_decl_not_repointed(case, clause, detail, finding):
 def _m_shared_datatype(case, clause, detail, finding):
     '''DataSymbol.copy() hands the SAME datatype object to the copy: (NoSharedNode)
     the only node objects reachable from both trees are the expression nodes
-    inside array bounds; once a bound is edited in place (Reference.symbol
-    setter = operation setshaperef) the other tree's declaration follows:
-    (OtherRenderUnchanged) only the shape uses of that very array change, to
-    the new bound's name; (OwnSymbols) besides the uses covered by
-    decl-uses-not-repointed only shape uses of the edited arrays reach into
-    the other tree.'''
+    inside array bounds; (OtherRenderUnchanged) once a bound is edited in place
+    (Reference.symbol setter = operation setshaperef) the other tree's
+    declaration of that array follows: exactly one shape use (the first bound)
+    changes, to the new bound's name.'''
     wit = detail["witness"]
     if clause == "NoSharedNode":
         return wit["cats"] == ["shape"]
-    edits = [op for op in case["history"] if op["name"] == "setshaperef"]
-    if not edits:
-        return False
     if clause == "OtherRenderUnchanged":
         op = case["history"][-1]
         if op["name"] != "setshaperef" or case["refused"]:
             return False
         diff = wit["diff"]
-        if diff["Dgone"] or diff["Dnew"] or diff["Ngone"] or diff["Nnew"]:
+        if not _only_uses_changed(diff):
             return False
-        if len(diff["Ugone"]) != 1 or len(diff["Unew"]) != 1:
+        if len(diff["Ugone"]) != 1 or not _same_sites(diff["Ugone"], diff["Unew"]):
             return False
         old, new = diff["Ugone"][0], diff["Unew"][0]
-        return (old["r"] == "shape" and old["s"] == op["sym"] and old["i"] == 0
-                and {k: v for k, v in old.items() if k != "nm"}
-                == {k: v for k, v in new.items() if k != "nm"}
+        # (the other tree's array has another name after a rename)
+        named = old["s"] == op["sym"] or bool(_ops(case, "rename"))
+        return (old["r"] == "shape" and old["i"] == 0 and named
                 and new["nm"] == op["dep"])
-    if clause == "OwnSymbols":
-        if wit["sharedsyms"] != 0 or not wit["uses"]:
-            return False
-        names = {op["sym"] for op in edits}
-        for use in wit["uses"]:
-            if not _decl_use(use):
-                return False
-            if use["side"] == "O" and not (use["r"] == "shape" and use["s"] in names):
-                return False
-        return True
     return False
 
 
 def _m_shared_interface(case, clause, detail, finding):
     '''Symbol.copy() hands the SAME ArgumentInterface object to the copy:
     setting interface.access on one side changes the intent written for the
-    other side's argument, and nothing else.'''
+    other side's argument of that name, and nothing else.'''
     if clause != "OtherRenderUnchanged":
         return False
     op = case["history"][-1]
@@ -302,7 +305,7 @@ def _m_shared_interface(case, clause, detail, finding):
     if len(diff["Dgone"]) != 1 or len(diff["Dnew"]) != 1:
         return False
     old, new = diff["Dgone"][0], diff["Dnew"][0]
-    return (old["s"] == op["sym"] and old["p"] == op["scope"] and old["ifc"] == "arg"
+    return (old["s"] == op["sym"] and old["ifc"] == "arg"
             and {k: v for k, v in old.items() if k != "acc"}
             == {k: v for k, v in new.items() if k != "acc"}
             and new["acc"] == op["acc"] and old["acc"] != op["acc"])
